@@ -26,13 +26,53 @@ def credential_parts_local(b):
         if sp and sl.has_call(r"SigV4Authenticator::credential$"):
             sep = const_value(op_const(sp[0][1]["args"][1]) or {})
             return t["dest"]["local"], bi, sep
+    # sibling idiom: `let (Some(_), Some(date), .., None) = (it.next(), it.next(), ..) else { .. }` on one split('/')
+    for bi, i, st in b.aggregates():
+        rv = st["rv"]
+        if not rv.get("tuple") or len(rv["ops"]) < 2:
+            continue
+        nexts = []
+        for o in rv["ops"]:
+            od = b.origin_def(o)
+            if od and od[0] == "def" and od[1]["kind"] == "call" and re.search(r"Iterator::next$", od[1]["term"]["callee"]) and "str::Split<" in od[1]["term"].get("resolved_full", ""):
+                nexts.append(od[1])
+        if len(nexts) != len(rv["ops"]):
+            continue
+        sl = b.slice_op(nexts[0]["term"]["args"][0])
+        sp = sl.find_calls(r"str>::split$")
+        if sp and sl.has_call(r"SigV4Authenticator::credential$"):
+            its = {frozenset(b.pointees().get(op_local(n["term"]["args"][0]), set())) for n in nexts}
+            in_order = all(b.dominates(nexts[k]["block"], nexts[k + 1]["block"]) and nexts[k]["block"] != nexts[k + 1]["block"] for k in range(len(nexts) - 1))
+            if len(its) == 1 and in_order:
+                b._cred_tuple = {"local": st["place"]["local"], "n": len(nexts), "block": bi}
+                return st["place"]["local"], bi, const_value(op_const(sp[0][1]["args"][1]) or {})
     raise AnchorMissing("credential.split('/').collect() not found in prevalidate")
+
+
+def tuple_pattern_at(b, blk):
+    """In the next()-tuple idiom: {field index: 'Some' | 'None'} that holds on every way into blk."""
+    ct = getattr(b, "_cred_tuple", None)
+    out = {}
+    if not ct:
+        return out
+    for pl, vals, other, a in discr_guard_variants(b, blk):
+        if pl["local"] == ct["local"]:
+            fs = place_fields(pl)
+            if fs and fs[0].isdigit() and not other and vals in ([0], [1]):
+                out[int(fs[0])] = "Some" if vals == [1] else "None"
+    return out
 
 
 def part_index(b, sl, parts_local):
     """Constant index K if the slice reads parts[K]: an Index::index(parts, K) call, or a slice-pattern element
     `(*slice)[K of n]` of parts.as_slice()."""
     idx = []
+    ct = getattr(b, "_cred_tuple", None)
+    if ct and ct["local"] == parts_local:
+        for l_, fs in sl.fieldreads:
+            if l_ == parts_local and fs and fs[0].isdigit():
+                idx.append(int(fs[0]))
+        return sorted(set(idx))
     for bi, t in sl.find_calls(r"ops::Index::index$"):
         if parts_local in b.slice_op(t["args"][0]).locals:
             idx.append(const_value(op_const(t["args"][1]) or {}))
@@ -59,6 +99,23 @@ def r1(ctx):
         yield VIOL("C03-R1", "prevalidate/arity-exit-count", "expected one IncompleteSignature exit in prevalidate, found %d" % len(errs), where=loc(b.j["span"]))
         return
     eb = errs[0][0]
+    ct = getattr(b, "_cred_tuple", None)
+    if ct and ct["local"] == parts:
+        # arity is decided by the pattern: exactly five Some followed by one None select the continuation
+        comps = scope_comparisons(b, parts)
+        want = {k: "Some" for k in range(5)}
+        want[5] = "None"
+        bad = [cb_ for cb_, _, _ in comps if tuple_pattern_at(b, cb_) != want]
+        direct = {a_ for a_, s_ in b.control_deps().get(eb, ())}
+        sw = {a for pl, vals, other, a in discr_guard_variants(b, comps[0][0]) if pl["local"] == parts} if comps else set()
+        if ct["n"] != 6 or not comps or bad:
+            yield VIOL("C03-R1", "prevalidate/arity-guard", "the scope checks run under the pattern %s of %d next() results (must be exactly five Some and a sixth None: != 5 parts refused)" % (tuple_pattern_at(b, comps[0][0]) if comps else {}, ct["n"]), where=b.span_of_block(ct["block"]))
+        elif not (direct & sw):
+            yield VIOL("C03-R1", "prevalidate/arity-guard", "the IncompleteSignature exit is not the failure edge of the five-parts pattern", where=b.span_of_block(eb))
+        else:
+            yield PASS("C03-R1", "prevalidate/arity-guard", "IncompleteSignature unless (next() x6) matches (Some, Some, Some, Some, Some, None)", [site(b, ct["block"], "pattern")])
+            yield PASS("C03-R1", "prevalidate/arity-before-scope", "all %d scope comparisons run under the five-parts pattern" % len(comps), [site(b, cb_, "cmp") for cb_, _, _ in comps])
+        return
     ok = None
     for a, s, c, truth in guard_conditions(b, eb):
         if c["kind"] == "binop" and c["op"] in ("Ne", "Eq"):
@@ -148,6 +205,8 @@ def r2(ctx):
         # the credential part is compared as it is: no trimming / case folding between credential() and the comparison
         part_sl = s0 if i0 else s1
         PASSIVE = r"(SigV4Authenticator::credential|str>::split|Iterator::collect|ops::Index::index|ops::Deref::deref|AsRef::as_ref|String::as_str|Vec::<T, A>::as_slice)$"
+        if getattr(b, "_cred_tuple", None):
+            PASSIVE = PASSIVE[:-2] + r"|Iterator::next)$"  # the parts are the results of successive next() calls
         active = [c for c in part_sl.callee_names() if not re.search(PASSIVE, c)]
         if active:
             good = False
